@@ -92,6 +92,7 @@ const (
 var (
 	errVerifNotFound = errors.New("verif: not found")
 	errVerifDB       = errors.New("verif db failure")
+	errVerifPanic    = errors.New("verif: query callback panicked")
 )
 
 // scripted rand.Source: Float64() of a rand.Rand over it yields U[i]/1024
@@ -568,6 +569,8 @@ func verifErr(err error) string {
 		return "ctx"
 	case errors.Is(err, errVerifDB):
 		return "dberr"
+	case errors.Is(err, errVerifPanic):
+		return "panic"
 	case strings.Contains(err.Error(), verifFaultMsg):
 		return "cerr"
 	default:
@@ -610,7 +613,7 @@ func verifRunCase(c verifCase) any {
 	}
 	watchdog := false
 	for _, op := range c.Ops {
-		watchdog = watchdog || op.Op == "idle"
+		watchdog = watchdog || op.Op == "idle" || op.Op == "qrowp"
 	}
 	for i := 0; i < r.nn; i++ {
 		verifServers[i].s.FlushAll()
@@ -722,20 +725,27 @@ func verifRunCase(c verifCase) any {
 			// nothing is asked of the cache for this long (real time)
 			time.Sleep(time.Duration(op.Dt) * time.Second)
 			o["r"] = "ok"
-		case "qrow", "qrowe":
+		case "qrow", "qrowe", "qrowp":
 			var row verifRow
 			take := r.cache.TakeCtx
 			if watchdog {
 				// the read must return promptly; one that does not is reported and the case abandoned
 				take = func(ctx context.Context, val any, key string, query func(val any) error) error {
 					done := make(chan error, 1)
-					go func() { done <- r.cache.TakeCtx(ctx, val, key, query) }()
+					go func() {
+						defer func() {
+							if p := recover(); p != nil { // the caller recovers the panic of its query callback
+								done <- errVerifPanic
+							}
+						}()
+						done <- r.cache.TakeCtx(ctx, val, key, query)
+					}()
 					select {
 					case err := <-done:
 						return err
-					case <-time.After(10 * time.Second):
+					case <-time.After(1500 * time.Millisecond):
 						hung = true
-						return errors.New("verif: the read did not return within 10 s")
+						return errors.New("verif: the read did not return within 1.5 s")
 					}
 				}
 			}
@@ -743,6 +753,9 @@ func verifRunCase(c verifCase) any {
 				r.dbq++
 				if op.Op == "qrowe" {
 					return errVerifDB // the database answers an error other than not-found
+				}
+				if op.Op == "qrowp" {
+					panic("verif: the query callback panics")
 				}
 				got, ok := r.db[op.ID]
 				if !ok {
